@@ -120,7 +120,7 @@ fn check(v: &AV, acc: &mut Acc) {
                 v2::Addresses::IPv6(x) if v6_ok(&x, src, dst, sp, dp) => {}
                 other => bad(acc, "v2::Addresses::from(IPv6)", format!("{:?}", other)),
             }
-            for (flow, scope) in [(0u32, 0u32), (0xabcde, 7), (u32::MAX, u32::MAX)] {
+            for (flow, scope) in [(0u32, 0u32), (0xabcde, 7), (1, 11), (0, 65535), (u32::MAX, u32::MAX)] {
                 let s = SocketAddr::V6(SocketAddrV6::new(src.into(), sp, flow, scope));
                 let d = SocketAddr::V6(SocketAddrV6::new(dst.into(), dp, scope, flow));
                 match v1::Addresses::from((s, d)) {
